@@ -734,9 +734,9 @@ func FunctionMap() map[string]physical.FunctionDetails {
 						if int64(len(values[0].Str)) <= values[1].Int {
 							return octosql.NewString(""), nil
 						}
-						end := values[1].Int + values[2].Int
-						if end > int64(len(values[0].Str)) {
-							end = int64(len(values[0].Str))
+						end := int64(len(values[0].Str))
+						if values[2].Int < end-values[1].Int {
+							end = values[1].Int + values[2].Int
 						}
 						return octosql.NewString(values[0].Str[values[1].Int:end]), nil
 					},
